@@ -441,8 +441,21 @@ func (P *Prog) discoverRoles() error {
 		// required test (a *Test) among its parameters; shared tails such as a test-loop helper are not pipelines
 		hasRequired := false
 		for i := 0; i < cal.Signature.Params().Len(); i++ {
-			if P.isPtrTo(cal.Signature.Params().At(i).Type(), R.Test) {
+			pt := cal.Signature.Params().At(i).Type()
+			if P.isPtrTo(pt, R.Test) {
 				hasRequired = true
+			}
+			// ... or inside a small options struct of the module that groups the node's rules
+			// (`primitiveRules[T]{tests, postTransforms, defaultVal, required, catch}`)
+			if ptr, ok := pt.Underlying().(*types.Pointer); ok {
+				pt = ptr.Elem()
+			}
+			if st, ok := pt.Underlying().(*types.Struct); ok && !sameNamed(namedOf(pt), R.SchemaCtx) {
+				for k := 0; k < st.NumFields(); k++ {
+					if P.isPtrTo(st.Field(k).Type(), R.Test) {
+						hasRequired = true
+					}
+				}
 			}
 		}
 		if !hasRequired {
